@@ -382,6 +382,10 @@ MODLVL == Fam("mod",
   "{item}\n",
   << Slot("item", <<
        "source_filename = \"a b\\22c.c\"",
+       \* type names that a number parser accepts but that are not the canonical spelling of a number are ordinary,
+       \* pairwise different names (fix e47ce20: they were all taken for the type "42"); names made of digits only are the
+       \* known quoting defect of C11 and stay out of this item
+       "%\"+42\" = type { i8 }\n%\"+042\" = type { i64 }\n%\"-042\" = type { i16 }\n@b = global %\"+42\" zeroinitializer\n@c = global %\"+042\" zeroinitializer\n@d = global %\"-042\" zeroinitializer",
        "target datalayout = \"e-m:e-p270:32:32-p271:32:32-p272:64:64-i64:64-f80:128-n8:16:32:64-S128\"",
        "target triple = \"x86_64-pc-linux-gnu\"",
        "module asm \"nop\"\nmodule asm \"\\09.globl x\\0A\"",
